@@ -29,7 +29,7 @@ pub fn def() -> PropDef {
     PropDef {
         id: "C09",
         level: "exploration",
-        rule: "(A) every frame (Init / Sync / Abort) of every session transcript between all ordered pairs of small reachable states: encode with the crate's codec, concatenate the whole session, feed the decoder with every split into two chunks and (transcripts <= 300 bytes in quick, <= 800 bytes in thorough) every split into three chunks, every truncation, length prefixes MAX / MAX+1 / u32::MAX, and encode several frames into one shared buffer; (B) every decoder (frame, SignedEntry, ProtocolMessage, AuthorHeads, DocTicket bytes and string form, Capability::from_raw over all 256 kinds, FilterKind::from_str, DownloadPolicy) on every byte string up to length 2 (3 in thorough) and on every single-byte replacement (position x 255 values; a 4-value subset beyond the first 48 bytes in the quick tier) of valid encodings, each call under catch_unwind; values that decode are exercised (accessors, signature verification, processing by a real replica); (C) pinned encodings: the suite's three hex snapshots and, for every entry of the universe, equality with an independent hand-written layout encoder; non-trivial = distinct inputs that decode successfully after a corruption, or chunkings that cut inside a frame",
+        rule: "(A) every frame (Init / Sync / Abort) of every session transcript between all ordered pairs of small reachable states: encode with the crate's codec, concatenate the whole session, feed the decoder with every split into two chunks and (transcripts <= 300 bytes in quick, <= 800 bytes in thorough) every split into three chunks, every truncation, length prefixes MAX / MAX+1 / u32::MAX, and encode several frames into one shared buffer; (B) every decoder (frame, SignedEntry, ProtocolMessage, AuthorHeads, DocTicket bytes and string form, Capability::from_raw over all 256 kinds, FilterKind::from_str, DownloadPolicy, the hex text form of Author / NamespaceSecret / AuthorId / NamespaceId / the two public-key types) on every byte string up to length 2 (3 in thorough) and on every single-byte replacement (position x 255 values; a 4-value subset beyond the first 48 bytes in the quick tier) of valid encodings, each call under catch_unwind; values that decode are exercised (accessors, signature verification, processing by a real replica); (C) pinned encodings: the suite's three hex snapshots and, for every entry of the universe, equality with an independent hand-written layout encoder; non-trivial = distinct inputs that decode successfully after a corruption, or chunkings that cut inside a frame",
         assumptions: &[
             "\"arbitrary bytes\" is replaced by its exhaustive small-scope counterpart: all strings up to 3 bytes and all single-byte replacements of valid encodings",
         ],
@@ -392,6 +392,89 @@ fn check_tickets_caps_filters() -> (Bad, u64) {
     if DocTicket::decode_bytes(&empty.encode_bytes()).is_ok() {
         bad.push(("ticket_needs_a_node", json!({}), "a ticket without nodes decoded".into()));
     }
+    // textual (hex) form of secret keys, public keys and ids: every short string over a small
+    // alphabet, and every truncation / extension / doubling / one-character corruption of a valid
+    // 64-digit form must give a value or an error; the valid form must round-trip
+    {
+        use iroh_docs::{AuthorId, AuthorPublicKey, NamespaceId, NamespacePublicKey};
+        let mut inputs: Vec<String> = vec![String::new()];
+        let alpha = ['0', 'f', 'A', 'g', ' ', '\u{e9}'];
+        for a in alpha {
+            inputs.push(a.to_string());
+            for b in alpha {
+                inputs.push(format!("{a}{b}"));
+                for c in ['0', 'z'] {
+                    inputs.push(format!("{a}{b}{c}"));
+                }
+            }
+        }
+        let valid = [
+            hex::encode(author(0).to_bytes()),
+            hex::encode(ns_secret(0).to_bytes()),
+            hex::encode(author(0).id().to_bytes()),
+            hex::encode(ns_id(0).to_bytes()),
+            hex::encode([0u8; 32]),
+            hex::encode([0xffu8; 32]),
+        ];
+        for v in &valid {
+            for cut in 0..v.len() {
+                inputs.push(v[..cut].to_string());
+            }
+            inputs.push(v.clone());
+            inputs.push(format!("{v}0"));
+            inputs.push(format!("{v}00"));
+            inputs.push(format!("{v}{v}"));
+            inputs.push(v.to_uppercase());
+            for i in [0usize, 1, 31, 32, 62, 63] {
+                for c in ['g', ' ', 'F'] {
+                    let mut cs: Vec<char> = v.chars().collect();
+                    cs[i] = c;
+                    inputs.push(cs.into_iter().collect());
+                }
+            }
+        }
+        for s in &inputs {
+            n += 6;
+            let calls: [(&str, Box<dyn Fn() -> Option<String> + '_>); 6] = [
+                ("Author", Box::new(|| Author::from_str(s).ok().map(|a| hex::encode(a.to_bytes())))),
+                ("NamespaceSecret", Box::new(|| NamespaceSecret::from_str(s).ok().map(|a| hex::encode(a.to_bytes())))),
+                ("AuthorId", Box::new(|| AuthorId::from_str(s).ok().map(|a| hex::encode(a.to_bytes())))),
+                ("NamespaceId", Box::new(|| NamespaceId::from_str(s).ok().map(|a| hex::encode(a.to_bytes())))),
+                ("AuthorPublicKey", Box::new(|| AuthorPublicKey::from_str(s).ok().map(|a| hex::encode(a.as_bytes())))),
+                ("NamespacePublicKey", Box::new(|| NamespacePublicKey::from_str(s).ok().map(|a| hex::encode(a.as_bytes())))),
+            ];
+            for (name, call) in calls.iter() {
+                match catch(|| call()) {
+                    Err(p) => bad.push(("no_panic", json!({"decoder": "key text form", "type": name}), format!("{name}::from_str({s:?}): {p}"))),
+                    Ok(Some(back)) => {
+                        // whatever is accepted must be the 32 bytes the digits spell
+                        if back != s.to_lowercase() {
+                            bad.push(("key_text_roundtrip", json!({"type": name}), format!("{name}::from_str({s:?}) gave {back}")));
+                        }
+                    }
+                    Ok(None) => {
+                        if valid[..4].contains(s) && !(name.ends_with("PublicKey") || name.ends_with("Id")) {
+                            bad.push(("key_text_roundtrip", json!({"type": name}), format!("{name}::from_str rejected a valid 64-digit form")));
+                        }
+                    }
+                }
+            }
+        }
+        // Display -> FromStr of the real keys
+        n += 4;
+        if Author::from_str(&author(0).to_string()).map(|a| a.to_bytes()).ok() != Some(author(0).to_bytes()) {
+            bad.push(("key_text_roundtrip", json!({"type": "Author"}), "Display -> FromStr".into()));
+        }
+        if NamespaceSecret::from_str(&ns_secret(0).to_string()).map(|a| a.to_bytes()).ok() != Some(ns_secret(0).to_bytes()) {
+            bad.push(("key_text_roundtrip", json!({"type": "NamespaceSecret"}), "Display -> FromStr".into()));
+        }
+        if AuthorId::from_str(&author(0).id().to_string()).ok() != Some(author(0).id()) {
+            bad.push(("key_text_roundtrip", json!({"type": "AuthorId"}), "Display -> FromStr".into()));
+        }
+        if NamespaceId::from_str(&ns_id(0).to_string()).ok() != Some(ns_id(0)) {
+            bad.push(("key_text_roundtrip", json!({"type": "NamespaceId"}), "Display -> FromStr".into()));
+        }
+    }
     // capabilities
     for kind in 0..=255u8 {
         for bytes in [[0u8; 32], [0xffu8; 32], ns_secret(0).to_bytes(), ns_id(0).to_bytes()] {
@@ -605,6 +688,7 @@ fn run(ctx: &Ctx, report: &mut Report) {
             let bytes: Vec<u8> = (0..len).map(|i| ((v >> (8 * i)) & 0xff) as u8).collect();
             for d in DECS {
                 report.evaluations += 1;
+                let _watch = crate::util::watch::enter("decoder on hostile bytes", json!({"decoder": format!("{d:?}"), "bytes": hex::encode(&bytes)}));
                 match catch(|| decode_with(d, &bytes, &mut replica)) {
                     Err(p) => report.violation("no_panic", json!({"decoder": format!("{d:?}"), "input": "short string"}), json!({"decoder": format!("{d:?}"), "bytes": hex::encode(&bytes)}), format!("{d:?} on {}: {p}", hex::encode(&bytes)), ordinal),
                     Ok(r) => {
@@ -643,6 +727,7 @@ fn run(ctx: &Ctx, report: &mut Report) {
                 let mut bytes = enc.clone();
                 bytes[pos] = val;
                 report.evaluations += 1;
+                let _watch = crate::util::watch::enter("decoder on hostile bytes", json!({"decoder": format!("{d:?}"), "bytes": hex::encode(&bytes)}));
                 match catch(|| decode_with(d, &bytes, &mut replica)) {
                     Err(p) => {
                         report.violation("no_panic", json!({"decoder": format!("{d:?}"), "input": "corrupted valid encoding"}), json!({"decoder": format!("{d:?}"), "bytes": hex::encode(&bytes)}), format!("{d:?} with byte {pos} := {val:#x}: {p}"), ordinal);
